@@ -32,6 +32,7 @@ func init() {
 
 func checkC18(c *Ctx) {
 	p := c.P
+	checkNoKnownNilErrorReturn(c, "R3", func(f *ssa.Function) bool { return inPkg(p, f, "/actor") }, 5)
 	ri := p.Iface("/actor", "Runner")
 	if ri == nil {
 		c.Bad("R1", "anchors", "-", "Runner interface not found")
@@ -304,10 +305,11 @@ func checkC18(c *Ctx) {
 						continue
 					}
 					staleSucc := -1
+					// a view with the SAME time stamp as the one already acted on is stale too
 					switch opName {
-					case ">=", ">":
+					case ">=":
 						staleSucc = 0
-					case "<", "<=":
+					case "<":
 						staleSucc = 1
 					}
 					if staleSucc < 0 {
@@ -319,6 +321,29 @@ func checkC18(c *Ctx) {
 				}
 			}
 			c.Check(stale, "R6", "silence:staleness-filter", where, "stale views filtered", "the bot does not filter stale table views before acting")
+			// … and the time of the view acted on is remembered before acting
+			var rem []ssa.Instruction
+			for _, ss := range p.Stores([]*ssa.Function{entry}) {
+				if ss.Owner == bot.Obj().Name() && ss.Field == "lastGameStateTime" && ss.Val.Strip().Kind == "field" && ss.Val.Strip().Name == "UpdatedAt" {
+					rem = append(rem, ss.Instr)
+				}
+			}
+			okRem := false
+			for _, r := range rem {
+				gds := p.Guards(r)
+				onlyHasState := nilGuard(gds, false, func(x *Sym) bool { return x.Kind == "field" && x.Name == "GameState" })
+				for _, g := range gds {
+					if g.Cond.Contains(func(x *Sym) bool {
+						return x.Kind == "field" && (x.Name == "UpdatedAt" || x.Name == "GameID" || x.Name == "curGameID" || x.Name == "lastGameStateTime")
+					}) {
+						onlyHasState = false // remembered only for some of the non-stale views
+					}
+				}
+				if onlyHasState && blockReaches(r.Block(), ci.Block()) {
+					okRem = true
+				}
+			}
+			c.Check(okRem, "R6", "silence:view-time-remembered", where, "lastGameStateTime ← UpdatedAt for every non-stale view with a hand state, before the move request", "the bot does not remember the time of the view it acts on: the same view would be acted on again")
 			// own index passed on
 			a := p.Sym(ci.Common().Args[2]).Strip()
 			c.Check(a.IsCall("Table.GamePlayerIndex") && a.Args[1].Strip().IsField(bot.Obj().Name(), "playerID"), "R6", "own-hand-index", where, "acts for its own hand index", "the bot acts for hand index "+a.String())
